@@ -12,6 +12,8 @@ namespace {
 std::string fontdir, stagedir;
 std::string file_of(const std::string &kind) {
     if (kind == "name1") return stagedir + "/facelife_name1.ttf";      // written by stage_files()
+    if (kind == "fmt12") return fontdir + "/charis_r_gr.ttf";         // cmap with a format 12 and a format 4 subtable
+    if (kind == "charisfast") return fontdir + "/charis_fast.ttf";    // passes guarded by constraints on feature values
     if (kind == "underflow") return fontdir + "/underflow.ttf";        // shaping "baaaaaab" is refused at run time: the call returns NULL
     return fontdir + (kind == "compressed" || kind == "badlz4" || kind == "badlz4s" ? "/Awami_compressed_test.ttf" : kind == "awami" ? "/AwamiNastaliq-Regular.ttf" : "/Padauk.ttf");
 }
@@ -24,7 +26,7 @@ bool prepare(TableFace &tf, const std::string &kind) {
         tf.tables[tagof("name")] = n;
         return true;
     }
-    if (kind == "compressed" || kind == "awami" || kind == "underflow") return true;
+    if (kind == "compressed" || kind == "awami" || kind == "underflow" || kind == "fmt12" || kind == "charisfast") return true;
     if (kind == "badlz4" || kind == "badlz4s") {      // the compressed Glat / Silf payload is damaged: decompression fails
         std::vector<uint8_t> t = tf.tables[tagof(kind == "badlz4" ? "Glat" : "Silf")];
         for (size_t i = t.size() / 3; i < t.size() / 3 + 24 && i < t.size(); ++i) t[i] = 0xFF;
@@ -94,6 +96,7 @@ bool stage_files() {
     return ok;
 }
 std::vector<std::string> texts_padauk, texts_awami;
+const std::vector<std::string> texts_latin = {"Hello World", "affix \xF0\x9D\x94\x90 fi", "The Quick Brown", "small caps 123", "e\xCC\x81\xCC\x80 a\xCC\x8A", "WAVE Typography", "office", "Q"};
 const std::vector<std::string> texts_underflow = {"baaaaaab", "ab", "baab", "baaaaaab b", "a", "bab", "baaaaaab", "abba"};
 std::vector<std::string> read_lines(const std::string &p) { std::vector<std::string> r; std::string d = slurp(p), cur; for (char c : d) { if (c == '\n') { if (!cur.empty()) r.push_back(cur); cur.clear(); } else cur += c; } if (!cur.empty()) r.push_back(cur); return r; }
 uint64_t fnv(const std::string &s) { uint64_t h = 1469598103934665603ULL; for (unsigned char c : s) { h ^= c; h *= 1099511628211ULL; } return h; }
@@ -199,7 +202,7 @@ GRV_CMD(facelife) {
             else if (op == "make_font") { const float ppm = arg ? float(arg) : 16.5f; gr_font *gf = gr_make_font(ppm, face); fonts.push_back(gf); fontppm.push_back(ppm); ok = gf != 0; }
             else if (op == "destroy_font") { gr_font_destroy(fonts.back()); fonts.pop_back(); fontppm.pop_back(); }
             else if (op == "make_seg") {
-                const std::vector<std::string> &tl = kind == "underflow" ? texts_underflow : awami ? texts_awami : texts_padauk;
+                const std::vector<std::string> &tl = kind == "underflow" ? texts_underflow : (kind == "fmt12" || kind == "charisfast") ? texts_latin : awami ? texts_awami : texts_padauk;
                 const std::string &t = tl[size_t(arg) % tl.size()];
                 const size_t nch = gr_count_unicode_characters(gr_utf8, t.data(), t.data() + t.size(), 0);
                 GRV_WATCHDOG;
@@ -212,7 +215,7 @@ GRV_CMD(facelife) {
                 h = std::to_string(fnv(dump(p)));
             }
             else if (op == "shape") {
-                const std::vector<std::string> &tl = kind == "underflow" ? texts_underflow : awami ? texts_awami : texts_padauk;
+                const std::vector<std::string> &tl = kind == "underflow" ? texts_underflow : (kind == "fmt12" || kind == "charisfast") ? texts_latin : awami ? texts_awami : texts_padauk;
                 const std::string &t = tl[size_t(arg) % tl.size()];
                 const size_t nch = gr_count_unicode_characters(gr_utf8, t.data(), t.data() + t.size(), 0);
                 GRV_WATCHDOG;
